@@ -185,9 +185,12 @@ def gen_p2p(rng, sid, faults):
             sc.head.append("sess %d %d" % (s, i))
     sids = sorted(sc.sessions)
     ops = []
+    def sub_kind():
+        # mostly by the usrXXX name, sometimes by the p2pAAABBB name
+        return "subp" if rng.random() < 0.2 else "sub"
     for x in sids:
         if rng.random() < 0.7:
-            ops.append((fault_of(rng, faults * 0.5), "sub", [x]))
+            ops.append((fault_of(rng, faults * 0.5), sub_kind(), [x]))
     for _ in range(rng.randint(6, 20)):
         x = rng.choice(sids)
         r = rng.random()
@@ -195,7 +198,7 @@ def gen_p2p(rng, sid, faults):
         if r < 0.36:
             ops.append((flt, "pub", [x, 100 + len(ops), 1 if rng.random() < 0.15 else 0]))
         elif r < 0.50:
-            ops.append((flt, "sub", [x]))
+            ops.append((flt, sub_kind(), [x]))
         elif r < 0.57:
             ops.append(("N", "leave", [x, 0]))
         elif r < 0.66:
@@ -210,7 +213,7 @@ def gen_p2p(rng, sid, faults):
             for y in sids:
                 ops.append(("N", "leave", [y, 1 if y == un else 0]))
             ops.append(("N", "unload", []))
-            ops.append((fault_of(rng, faults), "sub", [rng.choice(sids)]))
+            ops.append((fault_of(rng, faults), sub_kind(), [rng.choice(sids)]))
         elif r < 0.95:
             ops.append(("N", "unload", []))
         else:
@@ -230,9 +233,12 @@ def gen_sys(rng, sid, faults):
     nroot = 2 if (n == 3 and rng.random() < 0.3) else 1
     for i in range(1, n + 1):
         sc.head.append("user %d acc=47 root=%d" % (i, 1 if i <= nroot else 0))
-    for i in range(1, nroot + 1):
-        if rng.random() < 0.5:
-            sc.head.append("subrow %d want=79 given=79 deleted=%d" % (i, 1 if rng.random() < 0.3 else 0))
+    for i in range(1, n + 1):
+        # stored subscriptions: root users often, the others rarely (subscribed while they were root);
+        # sometimes self-banned (want without J) or banned (given without J)
+        if rng.random() < (0.5 if i <= nroot else 0.12):
+            sc.head.append("subrow %d want=%d given=%d deleted=%d" % (i, rng.choice([79, 79, 79, 79, 0, 78]), rng.choice([79, 79, 79, 79, 78]),
+                                                                      1 if rng.random() < 0.3 else 0))
     gen_seed_msgs(rng, sc, seqid, list(range(1, n + 1)))
     s = 0
     for i in range(1, n + 1):
